@@ -15,6 +15,10 @@ r = subprocess.run(["git", "-C", REPO, "apply", "--3way", os.path.join(d, "patch
 if r.returncode != 0:
     subprocess.run(["git", "-C", REPO, "checkout", "--", "."]); subprocess.run(["git", "-C", REPO, "reset", "-q"])
     sys.exit("patch does not apply: " + r.stdout)
+import shutil, tempfile
+evbak = tempfile.mkdtemp(dir=os.path.join(ROOT, ".work")) if os.path.isdir(os.path.join(ROOT, ".work")) else tempfile.mkdtemp()
+for f in os.listdir(os.path.join(ROOT, "evidence")):
+    shutil.copy(os.path.join(ROOT, "evidence", f), evbak)
 try:
     for i in ids:
         p = subprocess.run([os.path.join(ROOT, "check"), i, "--tier", "quick"], cwd=ROOT, stdout=subprocess.PIPE, stderr=subprocess.PIPE, text=True)
@@ -23,3 +27,6 @@ try:
 finally:
     subprocess.run(["git", "-C", REPO, "reset", "-q"]); subprocess.run(["git", "-C", REPO, "checkout", "--", "."])
     subprocess.run(["git", "-C", REPO, "clean", "-fdq"])
+    for f in os.listdir(evbak):          # evidence must only ever describe runs on the unchanged tree
+        shutil.copy(os.path.join(evbak, f), os.path.join(ROOT, "evidence", f))
+    shutil.rmtree(evbak, ignore_errors=True)
